@@ -156,6 +156,23 @@ func runC18(c *Ctx) {
 	if nURL == 0 {
 		c.Unk("C18-URL", "(*valid.VUrl).validate", "split", token.NoPos, "no URL parameter value reaches a rule function (anchor unresolved)")
 	} else {
+		// the value judged is the QUERY-decoded text: '+' is a blank and %XX is decoded, as a form
+		// value is (net/url.QueryUnescape; PathUnescape keeps '+'; no decoding keeps %20)
+		var decBad []string
+		for _, rc := range ruleCalls(wl) {
+			if !strings.HasPrefix(rc.v, "reflect.ValueOf(") || !strings.Contains(rc.v, `"="`) {
+				continue
+			}
+			switch {
+			case strings.Contains(rc.v, "net/url.PathUnescape("):
+				decBad = append(decBad, "the query is decoded with url.PathUnescape: a blank encoded as '+' reaches the rule functions as '+', so the same value is judged differently than through the other entry points")
+			case strings.Contains(rc.v, `strings.Split("", `):
+				// the URL had no query part: the only "parameter" is cut out of the empty string
+			case !strings.Contains(rc.v, "net/url.QueryUnescape("):
+				decBad = append(decBad, "a URL parameter value reaches the rule functions without query percent-decoding: "+shorten(rc.v, 300))
+			}
+		}
+		c.Check(len(decBad) == 0, "C18-URL", "(*valid.VUrl).validate", "query-decoding", urlPos, "values are query-decoded (url.QueryUnescape)", uniqJoin(decBad, 1))
 		c.Check(len(lossy) == 0, "C18-URL", "(*valid.VUrl).validate", "first-equals", urlPos, "value keeps everything after the first '='", uniqJoin(lossy, 1))
 		c.Check(len(decodeFirst) == 0, "C18-URL", "(*valid.VUrl).validate", "decode-after-split", urlPos, "decoding does not precede splitting", uniqJoin(decodeFirst, 1))
 	}
